@@ -25,8 +25,11 @@ HOST_VALUES = ["trusted.example.com", "evil.example.com", "trusted.example.com:8
 REQ_HOSTS = ["svc.local", "trusted.example.com", "heimdall.local:4456", "127.0.0.1:4456"]
 FIRST_SEGS = ["m", "s", "h", "admin", "x", "api", "M", "adminx"]
 SEGS = ["a", "b", "zz", "secret", "v1", "a-b", "a.b", "~u", "a%20b", "%41", "a%3Bb", "x_y", "0", "a:b", "a@b", "a,b",
-        "a=b", "a+b", "a$b", "a!b", "*", "**", ":x"]
-QUERIES = ["", "", "a=1", "b=2&a=1", "q=%20x", "x", "a=1&a=2", "k=v%26w", "z=%zz", "a=b=c", "sp=a+b", ";semi=1", "a=1;b=2"]
+        "a=b", "a+b", "a$b", "a!b", "*", "**", ":x",
+        # octets Go does not accept unencoded in a path, and escapes it would respell: the view keeps the received spelling
+        'a"b', "a<b>", "a|b", "%7eu", "a%5Bb%5D", "a[b]", "a^b", "{a}", "%c3%a4", "a%2Eb", "(a)", "a'b"]
+QUERIES = ["", "", "a=1", "b=2&a=1", "q=%20x", "x", "a=1&a=2", "k=v%26w", "z=%zz", "a=b=c", "sp=a+b", ";semi=1", "a=1;b=2",
+           "b=2&a=1&b=1", "%41=1", "a=%3d", "a", "=", "&&", "a=<b>"]
 URI_GARBAGE = ["%zz", "::", "http://[::1", "/a%zz", "http://a b/", "/%", "://x", "1:2", "/p%2", "cache_object:foo/bar",
                "http://host:port/m/x"]
 XFF_VALUES = ["9.9.9.9", "9.9.9.9, 8.8.8.8", " 1.1.1.1 ,2.2.2.2", "unknown", "::1", "2001:db8::7, 10.0.0.1", "",
